@@ -40,8 +40,8 @@ class Names:
     def style(self) -> int:
         if self.kindname == "kwargs":
             return 0          # the **kwargs class of the ExtraKwargs programs is written by hand with plain defaults
-        if self.dstyle == 2 and self.kindname in ("namedtuple", "sqlalchemy"):
-            return 0          # no default factories in these kinds
+        if self.dstyle == 2 and self.kindname == "namedtuple":
+            return 0          # no default factories in this kind (SQLAlchemy: a callable column default)
         return self.dstyle
 
     def default(self, ty: str) -> Any:
